@@ -48,6 +48,7 @@ type Net struct {
 	nodePrefix map[string]string // task-id prefix -> node name
 	addrNode   map[string]string // listen address key -> node name
 	isolated   map[string]bool
+	cut        map[[2]string]bool // links between two nodes that hold their bytes (partial partition)
 	refuse     map[string]bool
 
 	// observation
@@ -68,6 +69,7 @@ func Of(w *sim.World) *Net {
 		nodePrefix: map[string]string{},
 		addrNode:   map[string]string{},
 		isolated:   map[string]bool{},
+		cut:        map[[2]string]bool{},
 		refuse:     map[string]bool{},
 		Stats:      map[string]int{},
 		LatencyP0:  0.5,
@@ -151,6 +153,31 @@ func (n *Net) Heal(node string) {
 	}
 	n.w.Fault("heal")
 	n.w.Event("net heal %s", node)
+}
+
+func pairKey(a, b string) [2]string {
+	if a > b {
+		a, b = b, a
+	}
+	return [2]string{a, b}
+}
+
+// CutLink holds every byte travelling between nodes a and b (both directions) and lets
+// dials between them hang, while both stay reachable for everybody else: a partial
+// partition. HealLink releases what was held, in order.
+func (n *Net) CutLink(a, b string) {
+	n.mu.Lock()
+	n.cut[pairKey(a, b)] = true
+	n.mu.Unlock()
+	n.w.Fault("link_cut")
+	n.w.Event("net cut %s-%s", a, b)
+}
+
+func (n *Net) HealLink(a, b string) {
+	n.mu.Lock()
+	delete(n.cut, pairKey(a, b))
+	n.mu.Unlock()
+	n.Heal("")
 }
 
 func (n *Net) RefuseDials(addr string, on bool) {
@@ -391,7 +418,7 @@ func dial(network, address string, timeout time.Duration) (Conn, error) {
 	if l != nil && targetNode == "" {
 		targetNode = l.node
 	}
-	holed := (targetNode != "" && n.isolated[targetNode]) || (myNode != "" && n.isolated[myNode] && myNode != targetNode)
+	holed := (targetNode != "" && n.isolated[targetNode]) || (myNode != "" && n.isolated[myNode] && myNode != targetNode) || n.cut[pairKey(myNode, targetNode)]
 	refused := n.refuse[k] || l == nil || l.closed
 	n.mu.Unlock()
 	if holed {
@@ -645,7 +672,7 @@ func (c *conn) Write(p []byte) (int, error) {
 		}
 	}
 	n.mu.Lock()
-	held := (c.node != "" && n.isolated[c.node]) || (c.peer.node != "" && n.isolated[c.peer.node])
+	held := (c.node != "" && n.isolated[c.node]) || (c.peer.node != "" && n.isolated[c.peer.node]) || n.cut[pairKey(c.node, c.peer.node)]
 	if c.node == c.peer.node {
 		held = false
 	}
@@ -693,7 +720,7 @@ func (c *conn) Close() error {
 	dst := c.peer.in
 	n := c.n
 	n.mu.Lock()
-	held := (c.node != "" && n.isolated[c.node]) || (c.peer.node != "" && n.isolated[c.peer.node])
+	held := (c.node != "" && n.isolated[c.node]) || (c.peer.node != "" && n.isolated[c.peer.node]) || n.cut[pairKey(c.node, c.peer.node)]
 	if c.node == c.peer.node {
 		held = false
 	}
